@@ -21,7 +21,8 @@ RULE = ("table = packed structured dtype of 1-6 fields from i1..u8, f4, f8, S1..
         "'|'}; entry point in sfile.write/read, SFile handle, Recfile with/without nrows, recfile.write/read; "
         "input optionally a strided view. Non-trivial: a float field holding a non-finite or >=16-digit value, or "
         "an integer extreme, or a string with leading/embedded/trailing blank or a delimiter character, or "
-        "big-endian input, or a sub-array field. Distinct = distinct case JSON.")
+        "big-endian input, or a sub-array field. Distinct = distinct case JSON."
+        " Also: per-field byte order, wide fields (rows up to 200 kB of text), rows made of blanks only in string-only tables.")
 ASSUMPTIONS = [
     "f8 magnitudes stop at 1.797693134862315e308: DBL_MAX itself prints as 1.797693134862316e+308 in 16 digits, "
     "which no finite double is within 16 digits of",
